@@ -1,5 +1,5 @@
 """Compute layouts for reconciliations."""
-from typing import Any, Dict
+from typing import Any, Dict, Optional
 from ete3 import Tree, TreeNode
 from .tikz import measure_nodes
 from .model import (
@@ -27,6 +27,7 @@ def _add_losses(
     gene: TreeNode,
     start_species: TreeNode,
     end_species: TreeNode,
+    color: Optional[str] = None,
 ) -> GeneAnchor:
     """
     Insert virtual gene loss nodes between
@@ -36,10 +37,10 @@ def _add_losses(
     :param start_species: lower species in which the gene is conserved
     :param end_species: parent of the species from which the
         gene originated
+    :param color: color in effect for the lost gene, if any
     :returns: first virtual child created in the process
     """
     prev_gene = gene
-    color = getattr(gene, "color", None)
     prev_species = start_species
     start_species = start_species.up
 
@@ -79,16 +80,18 @@ def _compute_branches(  # pylint:disable=too-many-locals
     mapping = rec.object_species
     syntenies = rec.syntenies if isinstance(rec, SuperReconciliationOutput) else {}
 
-    # Propagate color feature downwards in the tree: a node without its own
-    # color takes the (already propagated) color of its parent, so that an
-    # outer color is still in effect after a nested colored subtree
+    # Resolve the color in effect at each node: a node without its own color
+    # takes the (already resolved) color of its parent, so that an outer color
+    # is still in effect after a nested colored subtree. The result is kept
+    # apart from the tree: writing it back as a feature would make inherited
+    # colors look like given ones the next time the same object is drawn
+    colors: Dict[TreeNode, str] = {}
+
     for root_gene in gene_tree.traverse("preorder"):
-        if (
-            not hasattr(root_gene, "color")
-            and root_gene.up is not None
-            and hasattr(root_gene.up, "color")
-        ):
-            root_gene.add_feature("color", root_gene.up.color)
+        if hasattr(root_gene, "color"):
+            colors[root_gene] = root_gene.color
+        elif root_gene.up in colors:
+            colors[root_gene] = colors[root_gene.up]
 
     # Find gene tree nodes associated to each species and create branches
     for root_species in species_tree.traverse("postorder"):
@@ -151,12 +154,14 @@ def _compute_branches(  # pylint:disable=too-many-locals
                         left_gene,
                         mapping[left_gene],
                         root_species,
+                        colors.get(left_gene),
                     )
                     right_gene = _add_losses(
                         layout_state,
                         right_gene,
                         mapping[right_gene],
                         root_species,
+                        colors.get(right_gene),
                     )
 
                     state["anchor_nodes"].add(root_gene)
@@ -174,12 +179,14 @@ def _compute_branches(  # pylint:disable=too-many-locals
                         left_gene,
                         mapping[left_gene],
                         root_species.up,
+                        colors.get(left_gene),
                     )
                     right_gene = _add_losses(
                         layout_state,
                         right_gene,
                         mapping[right_gene],
                         root_species.up,
+                        colors.get(right_gene),
                     )
 
                     state["anchor_nodes"].add(root_gene)
@@ -204,6 +211,7 @@ def _compute_branches(  # pylint:disable=too-many-locals
                         conserv_gene,
                         mapping[conserv_gene],
                         root_species.up,
+                        colors.get(conserv_gene),
                     )
 
                     state["anchor_nodes"].add(root_gene)
@@ -217,8 +225,8 @@ def _compute_branches(  # pylint:disable=too-many-locals
                 else:
                     raise ValueError("Invalid event")
 
-            if hasattr(root_gene, "color"):
-                state["branches"][root_gene]["color"] = root_gene.color
+            if root_gene in colors:
+                state["branches"][root_gene]["color"] = colors[root_gene]
 
 
 def _layout_branches(  # pylint:disable=too-many-locals
